@@ -53,6 +53,7 @@ def main():
                     d={'fn':kind,'m':m,'out':o,'src':fn,'count':int(r['Count'])}
                     if v: d['v']=v
                     if 'Key' in r: d['k']=hx(r['Key'])
+                    d['custom']=hx(r.get('Custom',''))
                     f.write(json.dumps(d)+'\n'); n+=1
     print(n,'vectors')
 main()
